@@ -583,3 +583,60 @@ func regionFuncs(p *an.Prog, fn *ssa.Function) []*ssa.Function {
 	}
 	return out
 }
+
+// swappedNamedArgs: call sites at which an argument that is a plain named variable (parameter or local) carries the
+// name of a *different* parameter of the callee of the same type, while its own position's parameter is named otherwise
+// (withdraw(addr, newBalance, paymentAmount) for withdraw(_member, _withdrawAmount, _newBalance)). Names are compared
+// lower-cased without leading underscores.
+func swappedNamedArgs(p *an.Prog, want func(*ssa.Function) bool) (out []string, n int) {
+	norm := func(s string) string { return strings.ToLower(strings.TrimLeft(s, "_")) }
+	argName := func(v ssa.Value) string {
+		switch x := v.(type) {
+		case *ssa.Parameter:
+			return x.Name()
+		case *ssa.UnOp:
+			if x.Op == token.MUL {
+				if al, ok := x.X.(*ssa.Alloc); ok {
+					return al.Comment
+				}
+				if fv, ok := x.X.(*ssa.FreeVar); ok {
+					return fv.Name()
+				}
+			}
+		}
+		return ""
+	}
+	for _, fn := range p.Repo {
+		if p.IsTestFunc(fn) || !want(fn) {
+			continue
+		}
+		for _, c := range an.Calls(fn, false) {
+			sig := c.Common().Signature()
+			if sig == nil || sig.Params().Len() < 2 {
+				continue
+			}
+			args := c.Common().Args
+			off := len(args) - sig.Params().Len()
+			if off < 0 {
+				continue
+			}
+			n++
+			for i := 0; i < sig.Params().Len(); i++ {
+				an0 := norm(argName(args[off+i]))
+				pi := norm(sig.Params().At(i).Name())
+				if an0 == "" || pi == "" || an0 == pi {
+					continue
+				}
+				for j := 0; j < sig.Params().Len(); j++ {
+					if j == i || !types.Identical(sig.Params().At(i).Type(), sig.Params().At(j).Type()) {
+						continue
+					}
+					if an0 == norm(sig.Params().At(j).Name()) && norm(argName(args[off+j])) != an0 {
+						out = append(out, an.FuncName(fn)+" passes "+argName(args[off+i])+" at "+p.Pos(c.Pos())+" as "+callName(c)+"'s parameter "+sig.Params().At(i).Name()+", although the callee has a parameter named "+sig.Params().At(j).Name()+" of the same type at another position: the two arguments look swapped")
+					}
+				}
+			}
+		}
+	}
+	return dedup(out), n
+}
